@@ -252,7 +252,7 @@ def check_gnupg(case):
         if "file_bytes" in res and res["file_bytes"] != canon(env):
             raise Violation("file written by sign_root_metadata_via_gpg is not canonical", bucket="gpg path file not canonical")
         own = {ks[i]["q"] for i in res["signers"]}
-        for k, v in j["pre"]:
+        for k, v in {k: v for k, v in j["pre"]}.items():       # (a later pair with the same key replaces an earlier one)
             if k in own:
                 continue        # the signer's own (stale) entry must be replaced, see below
             if k not in env["signatures"] or env["signatures"][k] != v:
